@@ -16,14 +16,20 @@ def run(ctx):
     from mpmath import mp, mpf
     mp.dps = 40
     ss = S.generate(ctx, 18 if ctx.quick else 150, 3 if ctx.quick else 6, max_e=6 if ctx.quick else 7,
-                    max_loops=3 if ctx.quick else 4, routings_per_graph=1, kinds=("uniform", "uniform", "corner"))
+                    max_loops=3 if ctx.quick else 4, routings_per_graph=1, kinds=("uniform", "tiny_xi", "corner"))
     # multi-loop graphs with mixed massive/massless edges: one removal can lower the loop number AND lose mass-spanning
     ss += S.generate(ctx, 10 if ctx.quick else 60, 6 if ctx.quick else 10, max_e=6, max_loops=4, routings_per_graph=1,
                      names=["sunrise", "banana4", "double_triangle", "kite", "bubble_chain", "triangle_tadpole"], mass_mode="some",
                      kinds=("uniform",))
     # two-point functions (externals = end points of one propagator): the LAST removed edge can still be mass-momentum spanning
     ss += S.generate(ctx, 6 if ctx.quick else 30, 8 if ctx.quick else 20, max_e=5, max_loops=3, routings_per_graph=1, kinds=("uniform",),
-                     names=["bubble", "triangle", "sunrise", "box", "bubble_leg", "kite"], ext_modes=["edge"])
+                     names=["bubble", "triangle", "sunrise", "box", "bubble_leg", "kite", "pentagon"], ext_modes=["edge"])
+    # polygons as two-point functions, many sectors: disconnected subgraphs whose externals sit on the component of a HIGHER edge
+    ss += S.generate(ctx, 4 if ctx.quick else 16, 30 if ctx.quick else 60, max_e=6, max_loops=1, routings_per_graph=1, kinds=("uniform",),
+                     names=["box", "pentagon"], ext_modes=["edge"])
+    # graphs with self-loops: a tadpole removed LAST still lowers the loop number
+    ss += S.generate(ctx, 5 if ctx.quick else 25, 8 if ctx.quick else 20, max_e=5, max_loops=3, routings_per_graph=1, kinds=("uniform",),
+                     names=["tadpole", "tadpole_pair", "triangle_tadpole", "sunrise_tadpole"])
     S.run(ss)
     SC.corr_perm(ctx, ss)
     for s in ss:
@@ -52,17 +58,25 @@ def run(ctx):
         g = (1 << n) - 1
         kappa = mpf(1)
         okf = True
+        amp = mpf(0)     # sum_j |ln xi_j| / omega_j: how strongly the f64 rounding of omega and of 1/omega is amplified by xi^(1/omega)
         for kstep, e in enumerate(order):
             got = mpf(xp[e])
-            if abs(got - kappa) > mpf(1e-12) * n * abs(kappa) + mpf(10) ** -320:
+            if abs(got - kappa) > (mpf(1e-12) * n + mpf(1e-15) * amp) * abs(kappa) + mpf(10) ** -320:
                 ctx.violation(f"pre-rescaling parameter of the {kstep+1}-th removed edge {e} is {xp[e]!r}, the sector formula gives {float(kappa)!r}",
                               S.small_req(s), expected=float(kappa), observed=xp[e]); okf = False; break
             g ^= 1 << e
             if g == 0:
                 break
             xi = mpf(xs[2 * kstep + 1])
-            om = mpf(b2f(ent[g][3]))
+            # omega(g_j) from the exact oracle (the property's generalised degree of divergence), not from the sampler's own table
+            om_exact = c["table"][g][2]
+            om = mpf(om_exact.numerator) / mpf(om_exact.denominator)
+            if om <= 0 or xi == 0:
+                okf = None; break
             kappa = kappa * xi ** (1 / om)
+            amp += abs(mp.log(xi)) / om * (1 + 1 / om)
+        if okf is None:
+            ctx.count("sector_formula_not_applicable(zero xi or non-positive omega)"); continue
         if not okf:
             continue
         # ---- tropical polynomials = maximal monomials (brute force, exact)
@@ -101,6 +115,7 @@ def run(ctx):
         if abs(val - 1) > mpf(1e-11) * (D / 2 * nl + float(dod) + 1):
             ctx.violation(f"after the rescaling U_tr^(D/2) V_tr^dod = {float(val)!r}, not 1", S.small_req(s), expected=1.0, observed=float(val))
         # all parameters rescaled by one common factor
-        ratios = [x[e] / xpre[e] for e in range(n)]
+        # (parameters in or next to the subnormal range carry fewer than 53 bits: excluded from the bit-level ratio test)
+        ratios = [x[e] / xpre[e] for e in range(n) if min(float(x[e]), float(xpre[e])) > 1e-290] or [Fraction(1)]
         if max(ratios) - min(ratios) > 8 * SC.EPS * max(ratios):
             ctx.violation("the rescaling is not one common factor for all Feynman parameters", S.small_req(s), observed=[float(t) for t in ratios])
